@@ -35,7 +35,9 @@ Record actor := mkActor { a_name : Z; a_start : Z; a_end : Z; a_chunks : list ch
 (* int64(math.Ceil(float64(ts) / 1000)): ceil(x/n) = floor((x+n-1)/n) for every
    integer x (Z./ is floor division).  The float computation is exact for
    |ts| < 2^43 * 1000 (float64(ts) exact below 2^53; the quotient's ulp stays
-   below 1/1000); tied by correspondence. *)
+   below 1/1000); tied by correspondence.  FTDC date metrics only survive the
+   collectors between the years 1678 and 2262 (|ms| < 2^63 / 10^6 < 2^43.1), so
+   every timestamp that can reach t2.go through a date is inside that range. *)
 Definition ceil_sec (ts : Z) : Z := (ts + 999) / 1000.
 
 Definition wrap_i64 (z : Z) : Z := (z + 2 ^ 63) mod 2 ^ 64 - 2 ^ 63.
